@@ -180,6 +180,12 @@ def gen_case(r, i, mode=None):
         if r.random() < .5:
             argv.reverse()
             terms.reverse()
+    elif r.random() < .04:
+        # many arguments: 20-60 regular files of every flavour (and a few missing names) in one invocation
+        files = {"g%02d.py" % j: r.choice(["chg", "chg", "same", "bad", "bin", "missing"]) for j in range(r.randint(20, 60))}
+        abs_links, layout = [], None
+        args = list(files)
+        r.shuffle(args)
     elif r.random() < .14:
         # directory-shaped: a directory argument holding symlinked *.py entries, under an explicit or the default
         # policy, with REPLACE reachable
@@ -198,11 +204,23 @@ def gen_case(r, i, mode=None):
                 argv.reverse()
                 terms.reverse()
     m = mode or ("subprocess" if r.random() < .12 else "inprocess")
-    tty = (m == "subprocess" and r.random() < .25)
+    tty = (m == "subprocess" and r.random() < .25 and len(args) <= 8)
     if tty:
         answers = [a.replace("\t", " ") for a in answers]     # a tab on a terminal is the completion key
     return {"kind": "tool", "i": i, "tool": tool, "argv": argv, "terms": terms, "files": files, "args": args,
             "answers": answers, "mode": m, "tty": tty, "abs_links": abs_links, "layout": layout}
+
+
+def gen_many(r, i, nfail):
+    """size extreme: nfail failing arguments (missing names are cheap) around the 8-bit exit status boundary"""
+    files = {"m%04d.py" % j: "missing" for j in range(nfail)}
+    files["f0.py"] = "chg"
+    args = list(files)
+    if r.random() < .5:
+        r.shuffle(args)
+    act = r.choice([("-r", "OReplace"), ("--actions=PRINT", "(OActions [Print])"), ("--actions=IFCHANGED,REPLACE", "(OActions [IfChanged; Replace])")])
+    return {"kind": "tool", "i": i, "tool": "tidy-imports", "argv": [act[0]], "terms": [act[1]], "files": files, "args": args,
+            "answers": [], "mode": r.choice(["inprocess", "subprocess"]), "tty": False, "abs_links": [], "layout": None}
 
 
 DIR_LAYOUT = [("inner.py", "chg"), ("z.txt", "chg"), (".hidden.py", "chg"), ("sub/deep.py", "chg"),
@@ -433,7 +451,7 @@ def run_subprocess(c, root, argv_full, answers_text):
     master, slave = pty.openpty()
     p = subprocess.Popen(cmd, stdin=slave, stdout=slave, stderr=subprocess.PIPE, env=env, cwd=root, close_fds=True)
     os.close(slave)
-    os.write(master, answers_text.encode() + b"\x04" * 8)
+    os.write(master, answers_text.encode() + b"\x04" * 40)
     out = b""
     err = b""
     import time
@@ -906,7 +924,7 @@ def run(ctx):
         "replace|bogus, -r/-p/-d/-R/-i, --quiet/--uniform, --actions=<1-4 words incl. lower case, QUERY:prompt, EXECUTE:true, an unknown word>; "
         "1-6 arguments among changed / already-tidy regular files, files failing with different exception classes (SyntaxError, null byte, "
         "RecursionError, invalid UTF-8 = UnicodeDecodeError in the reader), symlinks (1-3 hops, relative and absolute text, into a directory, "
-        "ending nowhere, a loop), a missing name, a directory tree (hidden, non-py, __pycache__, nested entries, symlinked *.py entries to targets inside / outside the directory, chained, dangling, a symlinked sub-directory), the same file twice; 0-6 scripted "
+        "ending nowhere, a loop), a missing name, a directory tree (hidden, non-py, __pycache__, nested entries, symlinked *.py entries to targets inside / outside the directory, chained, dangling, a symlinked sub-directory), the same file twice, 20-60 files in one invocation, and per run two invocations with 255/256/257/512 failing arguments (the 8-bit exit status boundary); 0-6 scripted "
         "answers among y/Yes/n/no/empty/blank/tab/'yes please'/q/... and EOF; 15% QUERY-shaped cases judged answer by answer; ~12% as "
         "unpatched subprocesses (a quarter of "
         "those under a pty = default interactive tuple), the rest in-process through runpy; thorough adds every action tuple of length <= 3 "
@@ -921,6 +939,10 @@ def run(ctx):
     cases = list(cm.load_corpus("C09"))
     for i in range(n):
         cases.append(gen_case(cm.rng(ctx.seed, "c09", i), i))
+    rr = cm.rng(ctx.seed, "c09", "many")
+    sizes = [255, 256, 257, 512, 1024] if thorough else [256, rr.choice([255, 257, 512])]
+    for j, nf in enumerate(sizes):
+        cases.append(gen_many(rr, 400000 + j, nf))
     if thorough:
         cases += list(exhaustive_cases(ctx.seed))
         ctx.notes["exhaustive"] = "action tuples of length <= 3 x policies x one file of each kind"
